@@ -37,7 +37,10 @@ pub fn classes_of(p: &APacket, case: &mut Case) {
 fn check(p: &APacket, case: &mut Case) -> Result<(), Fail> {
     case.nontrivial = p.n_entries() >= 1;
     classes_of(p, case);
+    let route = build_variant((p.id % 3) as u8);
     let pk = lib("build", || build(p))?.map_err(|e| Fail::new("harness:build", e))?;
+    drop(route);
+    case.class(format!("name-route-{}", p.id % 3));
     let bytes = lib("build_bytes_vec", || pk.build_bytes_vec())?.map_err(|e| Fail::new("c02:build-failed", format!("build_bytes_vec: {:?}", e)))?;
     let back = parse(&bytes)?.map_err(|e| Fail::new("c02:unparseable", format!("output of build_bytes_vec rejected: {:?} ({} bytes: {})", e, bytes.len(), hex(&bytes[..bytes.len().min(200)]))))?;
     let o = lib("observe", || observe(&back))?;
